@@ -14,11 +14,21 @@ MANIFEST = {
                   "(type, payload) list with no trailing-bits error, ON THE REAL ESCAPED BYTE STREAM through the C13 EBSP writer/reader "
                   "models (composed with the C13 lemmas writer=escape, reader=bits of the unescaped input, MoreRbspData spec); the same at "
                   "the rbsp level (C17_list_roundtrip_rbsp). The empty list is outside the statement (writer emits 80, extractor rejects "
-                  "it) and is proved to behave so.",
+                  "it) and is proved to behave so. Typed messages: C17_timecode, C17_pic_timing_avc, C17_mdcv, C17_cll: canonical m -> "
+                  "decode (payload m) = Ok m /\\ |payload m| = size m for ALL flag combinations, 0..3 clocks, time-offset lengths 0..31, "
+                  "with/without HRD delays (incl. the time code whose coded length is a multiple of 8, where the final 1 bit overflows "
+                  "the exactly-sized buffer and is dropped); C17_passthrough: sei4/sei5/CEA-608/HEVC pic timing return the payload unchanged "
+                  "whenever they return a message.",
     "level_note": "Every link of the list round trip is proved (no link left to the correspondence alone). Trusted: Coq kernel, "
                   "extraction (ExtrOcamlBasic), OCaml/Go glue; the model/code correspondence is differential testing. io.Writer failures "
                   "and non-seekable readers are not modelled. The model's ReadBytes takes a shortcut when the announced size exceeds the "
-                  "whole input (error without looping). Typed messages: see level_text_typed.",
+                  "whole input (error without looping). Typed messages: the theorems are stated on the bit-list form of the "
+                  "FixedSliceWriter output (spec_bytes: coded bits, zero padding, cut at the capacity Size()) and on a bit-list bits.Reader; "
+                  "the executable model runs the same op list through the C13 FixedSliceWriter model (fsw_bytes) and the driver checks "
+                  "fsw_bytes = spec_bytes = Go bytes on every case: that link (and bits.Reader = bit-list reads) is exercised by the "
+                  "correspondence, not proved. Out-of-domain values (more than 3 clocks, pict_struct > 8, clock/external time-offset "
+                  "length mismatch, fields wider than their code) are not canonical: modelled and compared, not covered by the theorems. "
+                  "Crash safety of the decoders on hostile payloads belongs to C16.",
 }
 
 
@@ -37,10 +47,15 @@ def run(ctx):
         "model: coq/c17/C17Model.v is a hand transcription of sei.WriteSEIMessages / sei.ExtractSEIData over coq/c13/C13Model.v "
         "(bits.EBSPWriter / bits.EBSPReader); io errors and the Seek of MoreRbspData are not modelled",
         "spec: coq/c17/C17Spec.v (0xFF-run code, plain serialisation, rbsp-level extractor), coq/c13/C13Spec.v (escape/unescape)",
+        "model: coq/c17/C17TypedModel.v is a hand transcription of sei136.go, sei1_avc.go, sei137.go, sei144.go, sei4.go, sei5.go, "
+        "sei1_hevc.go (outcome class only for the HEVC picture timing); bits.Reader is modelled as reads on a bit list",
+        "imported C13 lemmas (coq/c13/C13WriterProofs.v, C13ReaderProofs.v, C13MarkProofs.v): part of the proof, checked by the same build",
     ]
     ctx.assumptions += ["Type() < 2^64 (Go uint), Size() = len(Payload()) < 2^32 (the extractor accumulates the size in a uint32)",
                         "the underlying io.Writer never fails; the reader is a bytes.Reader",
-                        "the message list is non-empty (an SEI NAL unit carries at least one message)"]
+                        "the message list is non-empty (an SEI NAL unit carries at least one message)",
+                        "typed messages are canonical (fields fit their coded widths, absent fields are zero, <= 3 clocks, pict_struct <= 8 with "
+                        "the matching clock count, per-clock TimeOffsetLength = the external one, lengths-minus-1 < 32)"]
     exe, model = build(ctx)
     pr = ctx.proofs("c17", "C17Theorems.v")
     # ---- correspondence
@@ -76,7 +91,11 @@ def run(ctx):
                               "{0,1,2,3,4,16,24,254,255,256,509,510,511,765,1000,random<40}, payload bytes random / all zero / "
                               "escape alphabet {00,01,02,03,80,ff}; 1 in 5 lists with Size() != len(Payload()). "
                               "X: extractor inputs: every string over {00,01,03,80,ff} up to the exhaustive length + 1; written "
-                              "streams truncated / mutated / extended; random short strings",
+                              "streams truncated / mutated / extended; random short strings. "
+                              "T136/T1/T137/T144: typed message values (3 in 4 canonical with boundary field values and all flag shapes, 1 in 4 "
+                              "non-canonical: too-wide fields, junk in absent fields, 4-6 clocks, wrong clock count, pict_struct > 8, mismatching "
+                              "time-offset lengths): Size(), Payload() bytes and decode result compared. D*: the typed decoders on arbitrary short "
+                              "payloads. P4/P5/P1H: pass-through decoders (class ok/err/panic, kind, CEA-608 fields, payload, size)",
     }
     ctx.cov["samples"] += [l[:300] for l in lines[200:203]] + [l[:300] for l in lines[-3:]]
     ctx.log("correspondence: %d cases, %d mismatches" % (len(lines), len(mism)))
@@ -110,7 +129,9 @@ def run(ctx):
     ctx.proof_violation_if_broken(pr, "c17 search: %d evaluations, no failing input" % ctx.notes.get("search_evaluations", 0))
     ctx.cov["rule"] = ("corr: see input_distribution (exhaustive payload length %d, %d random cases); distinct = distinct case lines; "
                        "search: extract(write msgs) = msgs through sei.ExtractSEIData, avc.ParseSEINalu and hevc.ParseSEINalu, written "
-                       "bytes = independent naive emulation prevention of the plain serialisation, no forbidden triple" % (exh, n))
+                       "bytes = independent naive emulation prevention of the plain serialisation, no forbidden triple; typed: decode(Payload(m)) "
+                       "deep-equals m and Size() = len(Payload()) on canonical values, typed messages through WriteSEIMessages + ParseSEINalu, "
+                       "pass-through payload unchanged" % (exh, n))
 
 
 def replay(ctx, path):
